@@ -340,3 +340,12 @@ Fixpoint no_global_under_local_nf (ch : list frame) (x : name) : bool :=
 
 Definition pinned_domain (fs : list frame) (x : name) : bool :=
   forallb (fun f => negb (mem x (fnonlocal f))) fs && no_global_under_local_nf (rev fs) x.
+
+(* the module-level lookup of supp can succeed: the module binds x as one of its own names, or some
+   block binds it under a `global` declaration (_global_names), or it is a builtin.
+   [fs] root first: its head is the module frame. *)
+Definition module_offers (e : env) (fs : list frame) (x : name) : bool :=
+  match fs with
+  | m :: _ => is_local cfg_fixed m x || grouted e x || builtin e x
+  | [] => false
+  end.
